@@ -81,7 +81,7 @@ def run(ctx):
     # ---------------------------------------------------------------- R3 abandon paths close the client
     acc_post = [n for n in g.nodes if n.stmt is accept_stmt and n.part in ('store', 'post')]
     close_ids = {n.id for n in g.nodes if n.stmt is not None and n.part == 'post' and any(
-        last_attr(c) == 'close' and receiver(c) == cli for c in calls_in(n.stmt))}
+        last_attr(c) == 'close' and receiver(c) == cli for c in n.calls())}
     pm = parent_map(f.node)
     n_cont = 0
     for n in g.nodes:
@@ -114,14 +114,14 @@ def run(ctx):
         r = receiver(c) or ''
         if last_attr(c) == 'accept':
             n_block += 1
-            rn = [n for n in gs.nodes if n.stmt is not None and n.part == 'eval' and any(x is c for x in calls_in(n.stmt))]
+            rn = [n for n in gs.nodes if n.stmt is not None and n.part == 'eval' and any(x is c for x in n.calls())]
             ok, why = guarded_by_wait(gs, dom, ss, rn, r, '_socket')
             ctx.check('R2', 'server-side __setstate__: accept() on the control listener is multiplexed with the client data socket', ok, ss.short,
                       'bare-accept', f'the accept thread blocks in accept() on the control listener ({why}): a client that dies before connecting blocks the server for good',
                       where=loc(ss, c))
         if last_attr(c) in ('recv', 'get') and r.endswith('.parent_end') and not c.args:
             n_block += 1
-            rn = [n for n in gs.nodes if n.stmt is not None and n.part == 'eval' and any(x is c for x in calls_in(n.stmt))]
+            rn = [n for n in gs.nodes if n.stmt is not None and n.part == 'eval' and any(x is c for x in n.calls())]
             ok, why = guarded_by_wait(gs, dom, ss, rn, r, '.sentinel')
             ctx.check('R2', 'server-side __setstate__: the runtime-info receive is multiplexed with the backend\'s sentinel', ok, ss.short,
                       'bare-startup-recv', f'the accept thread does a bare recv() of the backend\'s runtime info ({why}): a backend that dies while starting blocks the server for good',
@@ -164,9 +164,9 @@ def run(ctx):
     # the child is registered only if its creation succeeded
     appends = [c for c in calls_in(loop) if last_attr(c) == 'append' and receiver(c) == 'self.children']
     for c in appends:
-        an = [n for n in g.nodes if n.stmt is not None and n.part == 'eval' and any(x is c for x in calls_in(n.stmt))]
+        an = [n for n in g.nodes if n.stmt is not None and n.part == 'eval' and any(x is c for x in n.calls())]
         creators = {n.id for n in g.nodes if n.stmt is not None and n.part in ('store', 'post') and isinstance(n.stmt, ast.Assign)
-                    and c.args and is_name(n.stmt.targets[0], c.args[0].id if isinstance(c.args[0], ast.Name) else '') and any(last_attr(x) == 'recv_msg' for x in calls_in(n.stmt))}
+                    and c.args and is_name(n.stmt.targets[0], c.args[0].id if isinstance(c.args[0], ast.Name) else '') and any(last_attr(x) == 'recv_msg' for x in n.calls())}
         domg = g.dominators(edge_ok=lambda e: e.kind != 'async')
         ok = bool(an) and all(domg.get(a.id, set()) & creators for a in an)
         ctx.check('R4', 'RemoteServer.run: a child is registered only after it was created successfully', ok, 'RemoteServer.run', 'register-without-creation',
